@@ -20,6 +20,60 @@ def bound_fn(fn, call):
     return q.completion_targets(fn, call)
 
 
+def single_origin_attempt_rule(run, fr):
+    """Pipelined requests that arrive before the origin connection exists must not start a second connection attempt:
+    each site of forward_request that initiates one (a name lookup, or opening + connecting the socket) is guarded by a
+    condition that the initiation itself falsifies before control returns to the request loop - the socket is opened
+    synchronously (guard !is_open()), or a bool member tested by the guard is set.  Otherwise two requests in one
+    segment start two attempts; the second open() aborts the first connect, whose failure handler closes the socket under
+    the second, and the client gets 503 for a reachable origin."""
+    fx = run.fx
+    ofc = fx.fn1(H + '::open_forward_connection')
+    opens_sync = any((q.callee_name(c) or '').endswith('tcp::socket::open') and q.render(ofc, c.get('obj')) == 'm_server_connection' for c in ofc.calls())
+    inits = []
+    for c in fr.calls():
+        nm = (q.callee_name(c) or '')
+        if nm.split('<')[0].endswith('::async_resolve') and q.render(fr, c.get('obj')) == 'm_resolver':
+            inits.append(('lookup', c))
+        elif c.get('usr') == ofc.usr:
+            inits.append(('connect', c))
+    if len(inits) < 2:
+        run.broke('forward_request: fewer than 2 connection-initiating sites found (async_resolve, open_forward_connection)')
+    sets = {}
+    for a in q.field_accesses(fr):
+        if a.kind == 'assign' and a.field.startswith(H + '::') and q.strip_casts(a.site.get('rhs') if a.site['k'] != 'call' else a.site['args'][1]).get('v') is True:
+            sets.setdefault(a.field.split('::')[-1], []).append(a.site)
+    for kind, c in inits:
+        run.touch(fr)
+        g = q.guards_at(fr, c)
+        ok, how = False, ''
+        for at, pol in g:
+            t = q.render(fr, q.strip_casts(at))
+            if t == 'm_server_connection.is_open()' and not pol and kind == 'connect' and opens_sync:
+                ok, how = True, 'guarded by !is_open(); open_forward_connection opens the socket before returning'
+            for fld, ss in sets.items():
+                if t == fld and not pol and (q.any_precedes(fr, ss, c) or q.must_follow(fr, c, ss)):
+                    ok, how = True, 'guarded by !%s, which is set on this path' % fld
+        # a flag tested by an earlier early-return (`if (m_resolving) return;`) is a guard as well
+        if not ok:
+            for fld, ss in sets.items():
+                early = [n for n in fr.all_nodes() if n['k'] == 'if' and q.render(fr, q.strip_casts(n.get('cond'))) == fld and q.leaves_function(fr, n['then'])]
+                if early and any(q.precedes(fr, n, c) for n in early) and (q.any_precedes(fr, ss, c) or q.must_follow(fr, c, ss)):
+                    ok, how = True, 'a dominating `if (%s) return;` and %s = true on this path' % (fld, fld)
+        run.check(ok, 'R4', 'single-origin-attempt', '%s: %s' % (H + '::forward_request', 'm_resolver.async_resolve' if kind == 'lookup' else 'open_forward_connection'), fr.loc(c),
+                  'this site starts a connection attempt (%s) under a condition that is still true when the next pipelined request is processed (guards: %s): two requests arriving in one segment start two attempts, the second aborts the first, and the client is answered 503 although the origin is reachable'
+                  % (kind, [('' if p else '!') + q.render(fr, a_)[:40] for a_, p in g]), how)
+    # a latch that is set must be released by the completion of the lookup on every path
+    for fld in sets:
+        odl = fx.fn1(H + '::on_domain_lookup')
+        run.touch(odl)
+        clr = [a.site for a in q.field_accesses(odl, {H + '::' + fld}) if a.kind == 'assign' and q.strip_casts(a.site.get('rhs')).get('v') is False]
+        if fld == 'm_writing_to_server':
+            continue
+        run.check(bool(clr) and q.on_all_paths(odl, clr), 'R4', 'single-origin-attempt', '%s releases %s' % (odl.norm, fld), odl.loc(),
+                  '%s is set when the lookup starts but not cleared on every path of on_domain_lookup: after a failed lookup no later request ever connects' % fld, 'cleared on every path of the lookup completion')
+
+
 def check(run):
     fx = run.fx
     f = lambda n: fx.fn1(H + '::' + n)
@@ -75,6 +129,7 @@ def check(run):
         run.check(len(adv) == 1 and q.precedes(fr, c, adv[0].site), 'R9', 'pipeline-append-counted', H + '::forward_request', fr.loc(c), 'the byte count is not advanced by the appended size', 'count advanced by out_request.size()')
     if not mm:
         run.broke('forward_request no longer appends to m_server_out_buffer')
+    single_origin_attempt_rule(run, fr)
     wsb = f('write_server_send_buffer')
     run.touch(wsb)
     w = [c for c in wsb.calls() if (q.callee_name(c) or '').split('::')[-1] in ('async_write_some', 'async_write')]
@@ -207,6 +262,10 @@ def check(run):
     oa = f('on_accept')
     g0 = [r_ for r_ in q.returns(oa) if any('operation_aborted' in q.render(oa, a) and p for a, p in q.guards_at(oa, r_))]
     run.check(bool(g0), 'R5', 'aborted-accept-ignored', H + '::on_accept', oa.loc(), 'an aborted accept (stop) is not ignored', 'returns on operation_aborted')
+    run.clause('the Host header is found when present: literal keys that address the parsed header map are lower-case, as parse_request stores them (writer/reader agreement, shared with C16)')
+    nk = engines.header_keys_lowercase(run, [f_ for f_ in fx.repo_functions() if f_.file.endswith(('http_proxy.cpp', 'http_server.cpp'))])
+    if nk < 2:
+        run.broke('fewer than 2 literal header keys found in http_proxy.cpp/http_server.cpp (%d; "host" and "connection" confirmed by hand)' % nk)
     run.clause('no length test or scan is bounded by a signed difference converted to unsigned')
     nsd = engines.signed_difference_compares(run, [f_ for f_ in fx.repo_functions(raw=True) if (f_.file.endswith('http_proxy.cpp') or f_.file.endswith('http_server.cpp')) and f_.cfg is not None])
     run.ok('R11', 'unsigned-compare-of-difference', 'scan', '', 'relational comparisons with a signed operand converted to unsigned in http_proxy.cpp/http_server.cpp: %d' % nsd, nontrivial=False)
